@@ -67,6 +67,11 @@ _WORK = None
 
 def _init_worker():
     sandbox.setup()
+    if os.environ.get("VMC_FAULT_DIR"):   # debugging aid: kill -USR1 <worker> writes its Python stack to $VMC_FAULT_DIR/<pid>.log
+        import faulthandler
+        import signal
+
+        faulthandler.register(signal.SIGUSR1, file=open(os.path.join(os.environ["VMC_FAULT_DIR"], "%d.log" % os.getpid()), "w"), all_threads=True)
     import random as _r
 
     _r.seed(0)
